@@ -13,7 +13,7 @@ from vlib import zlit
 REQ = "From QV Require Import Base.Util C18.Model."
 I64 = (-2**63, 2**63 - 1)
 I32 = (-2**31, 2**31 - 1)
-SRC = "/repo/src"
+SRC = vlib.REPO + "/src"
 
 # ---------------------------------------------------------------- source-use audit
 PRODUCER, COST, UNRELATED, DECISION = "producer/definition", "cost-only", "unrelated-identifier", "decides-an-answer"
